@@ -6,6 +6,9 @@ Two kinds of case (1 in 8 is a round-trip case, the rest are hostile-bytes cases
     serialised field randomised) is written with the real FlowWriter / FilteredFlowWriter (BytesIO or a real file) and read
     back with the real FlowReader.  Monitors:
       roundtrip_state            loaded flows' get_state() == the states captured before writing, same order
+      roundtrip_attributes       an attribute-level snapshot of each loaded flow (vars()/dataclass fields walked by the harness,
+                                 independent of get_state/set_state; only `live`, the resume event and the socket `state` are
+                                 exempt) equals the snapshot of the flow that was written
       ref_decode_of_written_file the bytes written decode, with the harness's own codec (vf/ref/c36_tnetstring.py), to the
                                  same states (the writer really produces the documented format)
       reader_accepts_ref_encoding tnetstring.loads(ref.encode(state)) == state (the reader agrees with the reference encoder)
@@ -43,9 +46,9 @@ from vf.ref import c36_tnetstring as T
 
 PROPERTY = "C36"
 LEVEL = "exploration"
-BUDGET = {"quick": (30_000, 17), "thorough": (3_000_000, 200)}
+BUDGET = {"quick": (30_000, 16), "thorough": (3_000_000, 180)}
 WORKERS = {"quick": 2, "thorough": 16}
-REQUIRED = ["roundtrip_state", "ref_decode_of_written_file", "reader_accepts_ref_encoding", "reserialise_same_states", "read_only_flowreadexception"]
+REQUIRED = ["roundtrip_state", "roundtrip_attributes", "ref_decode_of_written_file", "reader_accepts_ref_encoding", "reserialise_same_states", "read_only_flowreadexception"]
 ENGINE = "direct"
 TECHNIQUE = "round-trip + reference-codec differential; totality of the reader on mutated files under a step budget"
 RULE = (
@@ -129,6 +132,7 @@ def case_roundtrip(ctx, tmpdir):
     wv = r.choice(["bytesio", "bytesio", "filtered", "file"])
     rv = r.choice(["bytesio", "bytesio", "buffered", "file"])
     states = [T.norm(copy.deepcopy(f.get_state())) for f in flows]
+    snaps = [T.norm(G.attr_snapshot(f)) for f in flows]
     feats = sorted({x for f in flows for x in G.features(f)})
     sig = ("rt", tuple(sorted({G.kind_of(f) for f in flows})), tuple(feats), wv, rv, min(len(flows), 3))
     sample = {"case": "roundtrip", "kinds": [G.kind_of(f) for f in flows], "features": feats, "writer": wv, "reader": rv}
@@ -183,6 +187,11 @@ def case_roundtrip(ctx, tmpdir):
                 break
             if type(g) is not type(flows[i]):
                 ctx.violation("flow-class-differs", {"flow": i, "written": type(flows[i]).__name__, "loaded": type(g).__name__})
+                break
+            ctx.count("roundtrip_attributes")
+            sn = T.norm(G.attr_snapshot(g))
+            if not T.same(snaps[i], sn):
+                ctx.violation("attributes-differ-after-load", {"flow": i, "kind": sample["kinds"][i], "diff": T.diff(snaps[i], sn)}, classify_roundtrip([a], "messages"))
                 break
         else:
             ctx.count("reserialise_same_states")
@@ -464,12 +473,12 @@ def classify_escape(data: bytes, n_yielded: int, exc: BaseException, reader: str
 def case_hostile(ctx, pool):
     r = ctx.rng
     fam, data, base = make_hostile(ctx, pool)
-    rv = "buffered" if r.random() < 0.2 else "bytesio"
+    rv = "buffered" if r.random() < (0.5 if fam == "length" else 0.2) else "bytesio"
     fo = io.BufferedReader(io.BytesIO(data)) if rv == "buffered" else io.BytesIO(data)  # type: ignore
     got = []
     outcome = None
     ctx.count("read_only_flowreadexception")
-    budget = T.StepBudget(10_000 + 3 * len(data))
+    budget = T.StepBudget(10_000 + 3 * len(data), cpu_seconds=2.0)
     esc = None
     try:
         with budget:
@@ -484,7 +493,11 @@ def case_hostile(ctx, pool):
         esc = e
     except Exception as e:  # noqa
         esc = e
-    if esc is not None:
+    if esc is not None and budget.cpu_tripped and classify_escape(data, len(got), esc, rv) is None:
+        # CPU backstop on an input that is not a known non-terminating one: a slow machine, not evidence
+        ctx.count("inconclusive_cpu_backstop")
+        outcome = "inconclusive"
+    elif esc is not None:
         site = exc_site(esc) if not isinstance(esc, T.BudgetExceeded) else "step-budget"
         outcome = f"ESC:{type(esc).__name__}@{site}"
         mech = classify_escape(data, len(got), esc, rv)
